@@ -31,13 +31,24 @@ def ws_init():
     lock = os.path.join(WS, "Cargo.lock")
     if not os.path.exists(lock):
         shutil.copy(os.path.join(REPO, "Cargo.lock"), lock)
+    # the support crate is copied into the workspace (members must live below the root)
+    dst = os.path.join(WS, "vsupport")
+    for rel in ("Cargo.toml", "src/lib.rs", "src/bin/strenv.rs"):
+        a, b = os.path.join(SUPPORT, rel), os.path.join(dst, rel)
+        if not os.path.exists(a):
+            continue
+        new = open(a).read()
+        if not os.path.exists(b) or open(b).read() != new:
+            ensure_dir(os.path.dirname(b))
+            with open(b, "w") as f:
+                f.write(new)
 
 
 def _ws_manifest():
     members = sorted(d for d in os.listdir(WS)
                      if os.path.isfile(os.path.join(WS, d, "Cargo.toml")))
     with open(os.path.join(WS, "Cargo.toml"), "w") as f:
-        f.write("[workspace]\nresolver = \"2\"\nmembers = [%s]\n" % ", ".join('"%s"' % m for m in members))
+        f.write("[workspace]\nresolver = \"2\"\nmembers = [%s]\n" % ", ".join(['"%s"' % m for m in members]))
         f.write('\n[profile.dev]\nopt-level = 0\ndebug = 0\nincremental = false\n')
         f.write('\n[profile.release]\nopt-level = 2\ndebug = 0\nincremental = false\ncodegen-units = 16\n')
 
@@ -72,7 +83,7 @@ class Crate:
             f.write('[package]\nname = "%s"\nversion = "0.0.0"\nedition = "2021"\n\n[dependencies]\n' % self.name)
             f.write('nutype = { path = "%s/nutype"%s, features = [%s] }\n' % (REPO, nd, feats))
             if not self.lib:
-                f.write('vsupport = { path = "%s" }\n' % SUPPORT)
+                f.write('vsupport = { path = "../vsupport" }\n')
             for d in self.deps:
                 f.write(DEP_LINES[d] + "\n")
         for k, src in self.files.items():
@@ -165,6 +176,22 @@ class Crate:
         if p.returncode != 0:
             raise ToolError("driver %s failed (%s):\n%s\n%s" % (self.name, p.returncode, p.stdout[-2000:], p.stderr[-3000:]))
         return p
+
+
+def build_tool(bin_name):
+    """build a helper binary of the support crate; returns its path."""
+    ws_init()
+    _ws_manifest()
+    p = subprocess.run(["cargo", "build", "--offline", "-p", "vsupport", "--bin", bin_name, "--message-format=json"],
+                       cwd=WS, env={**os.environ, **CARGO_ENV}, stdout=subprocess.PIPE, stderr=subprocess.PIPE, text=True)
+    if p.returncode != 0:
+        raise ToolError("cannot build tool %s:\n%s" % (bin_name, p.stderr[-3000:]))
+    for line in p.stdout.splitlines():
+        if line.startswith("{"):
+            o = json.loads(line)
+            if o.get("reason") == "compiler-artifact" and o.get("executable") and o["target"]["name"] == bin_name:
+                return o["executable"]
+    raise ToolError("tool %s built but no executable reported" % bin_name)
 
 
 def shard(items, n):
